@@ -14,6 +14,7 @@ import Csverif.Driver.MonC07
 import Csverif.Driver.MonC12
 import Csverif.Driver.MonC14
 import Csverif.Driver.MonC06
+import Csverif.Driver.MonC20
 /- Driver: `driver <layer>` reads one operation per line on stdin and prints one canonical
    line per operation.  It executes the very definitions the theorems are about. -/
 open CS
@@ -61,5 +62,6 @@ def main (args : List String) : IO UInt32 := do
   | ["monc14"] => loopStateless stdin stdout Driver.MonC14.step; stdout.flush; return 0
   | ["event"] => loopState stdin stdout Driver.MonC06.eventInit Driver.MonC06.stepEvent; stdout.flush; return 0
   | ["monc06"] => loopStateless stdin stdout Driver.MonC06.stepMon; stdout.flush; return 0
+  | ["monc20"] => loopStateless stdin stdout Driver.MonC20.step; stdout.flush; return 0
   | ["reach"] => IO.println (toString Runnable.reachableCodes); return 0
   | _ => IO.eprintln "usage: driver <layer>"; return 2
